@@ -237,6 +237,7 @@ def oracle(case, obs):
             ext = max(seen) if role == "ge" else min(seen)
             if val is not None and val != old and val != ext:
                 fails.append(("C17", "recorded_is_value_at_comparison_time", f"site {i}: observed {seen!r}, written {val!r}"))
+                fails.append(("C14", "aggregate_extreme", f"site {i}: repeated evaluations observed {seen!r} (as they were at that moment), written {val!r} is neither the old value nor their extreme"))
                 if old is None and "create" in approved:
                     fails.append(("C01", "created_value_holds", f"site {i}: empty snapshot used with {'<=' if role == 'ge' else '>='}, values as they were compared {seen!r}, "
                                   f"written {val!r}: not a bound for all of them"))
@@ -245,6 +246,7 @@ def oracle(case, obs):
                 for e in val:
                     if e not in seen and (old is None or e not in old):
                         fails.append(("C17", "recorded_is_value_at_comparison_time", f"site {i}: member {e!r} was never compared (observed {seen!r})"))
+                        fails.append(("C14", "aggregate_union", f"site {i}: member {e!r} of the written collection is none of the values that were tested {seen!r} nor an old member"))
                         break
     return fails
 
